@@ -190,6 +190,7 @@ def k_c05(ctx):
             bad = None
             if cls and cls[0] == "CapExceeds": continue            # another obstacle (C11's business)
             if cls and cls[0] == "NoExemption": continue
+            if cls and cls[0] == "ZeroRatio": continue             # an invalid split ratio is refused for its own reason (fix 45ca768)
             if not unc and not rr.get("ok"):
                 bad = ("covered_refused", "every sale is covered but the code refuses: %s" % rr.get("error", "")[:200])
             elif unc and rr.get("ok"):
